@@ -841,23 +841,26 @@ fn range_bounds(bound: impl RangeBounds<i64>, size: usize) -> Option<(usize, usi
     //  (index + size) % size - almost works
     //  0  1  2  3  4  5  6  7  8  9  0  1  2  3  4  5  6  7  8  9
     //-10 -9 -8 -7 -6 -5 -4 -3 -2 -1  0  1  2  3  4  5  6  7  8  9
-    let size = size as i64;
+    //
+    // NOTE: computed in i128, `2 * size` does not fit i64 for extents >= 2^62
+    //       (only possible for surfaces that are empty along the other axis)
+    let size = size as i128;
     if size == 0 {
         return None;
     }
 
     let (start, offset) = match bound.start_bound() {
         Bound::Unbounded => (0, 0),
-        Bound::Included(start) => (*start, 0),
-        Bound::Excluded(start) => (*start, 1),
+        Bound::Included(start) => (*start as i128, 0),
+        Bound::Excluded(start) => (*start as i128, 1),
     };
     let offset = if start >= size { 1 } else { offset };
-    let start = clamp(start.saturating_add(size), 0, 2 * size - 1) % size + offset;
+    let start = clamp(start + size, 0, 2 * size - 1) % size + offset;
 
     let (end, offset) = match bound.end_bound() {
         Bound::Unbounded => (-1, 1),
-        Bound::Included(end) => (*end, 1),
-        Bound::Excluded(end) => (*end, 0),
+        Bound::Included(end) => (*end as i128, 1),
+        Bound::Excluded(end) => (*end as i128, 0),
     };
     let offset = if end >= size {
         1
@@ -867,7 +870,7 @@ fn range_bounds(bound: impl RangeBounds<i64>, size: usize) -> Option<(usize, usi
     } else {
         offset
     };
-    let end = clamp(end.saturating_add(size), 0, 2 * size - 1) % size + offset;
+    let end = clamp(end + size, 0, 2 * size - 1) % size + offset;
 
     if end <= start {
         None
